@@ -208,3 +208,65 @@ def groups(tier):
     ]
     gs += [g for g in C05.tolerance_groups() if "__eq__" in g.name]
     return gs
+
+
+# ---------------------------------------------------------------------------
+# bounded stand-in: the same exact object given in int / float / Fraction coordinates
+# ---------------------------------------------------------------------------
+
+def bounded_numeric_types(seed, n_obj):
+    """representations of one exact object that differ only in the numeric type of the coordinates compare equal (both orders), hash equally and
+    collapse in a set; a displaced near-miss stays different in every type combination"""
+    from fractions import Fraction as Fr
+    from g3dvc import oracle as O
+    from g3dvc import catalogue as K
+    from g3dvc import bounded as B
+    from g3dvc.engine import load_repo
+    g = load_repo()
+    rng = K.make_rng(seed + 8)
+    acc = B.Acc()
+    objs = []
+    for kind in ("Point", "Line", "HalfLine", "Segment", "Plane"):
+        for o in K.flat_objects(kind, rng, n_obj):
+            objs.append(o)
+            R, t, k = K.random_pose(rng)
+            objs.append(K.transform(o, R, t, k))
+    objs += list(K.polygons(rng, n_obj)) + list(K.polyhedra(rng, max(1, n_obj // 2)))
+    for ex in objs:
+        if not O.hash_safe(O.hash_quantities(ex)):
+            acc.skipped += 1
+            continue
+        kind = ex[0]
+        klass = "%s:%s" % (kind, "lattice" if all(Fr(c).denominator in (1, 2, 4) for p in O.features(ex)[0] for c in p) else "oblique")
+        acc.case(klass)
+        case = dict(obj=B.ser(ex))
+        try:
+            reps = [("float", O.to_lib(ex, "float")), ("Fraction", O.to_lib(ex, "allfraction"))]
+        except Exception as e:
+            acc.fail(klass, "construction raised %r" % (e,), case)
+            continue
+        (na, a), (nb, b) = reps
+        try:
+            if not (a == b) or not (b == a):
+                acc.fail(klass, "the %s and the %s representation of the same %s compare unequal" % (na, nb, kind), case)
+            elif hash(a) != hash(b):
+                acc.fail(klass, "the %s and the %s representation of the same %s are == but hash differently" % (na, nb, kind), case)
+            elif len({a, b}) != 1:
+                acc.fail(klass, "a set keeps both representations", case)
+        except Exception as e:
+            acc.fail(klass, "== / hash raised %r" % (e,), case)
+        if kind == "Point":
+            va, vb = g.Vector(*[O.to_number(c, "float") for c in ex[1]]), g.Vector(*[Fr(c) for c in ex[1]])
+            if not (va == vb) or hash(va) != hash(vb):
+                acc.fail("Vector:" + klass, "Vector in float and in Fraction coordinates: == %r, equal hashes %r" % (va == vb, hash(va) == hash(vb)), case)
+        acc.sample(dict(klass=klass, obj=B.ser(ex)))
+    return acc.result()
+
+
+def bounded(tier, seed):
+    return [("int / float / Fraction representations of the same object", bounded_numeric_types, (seed, 6 if tier == "quick" else 30), 1200)]
+
+
+def replay_case(case):
+    r = bounded_numeric_types(0, 6)
+    return dict(fails=bool(r["failures"]), observed=[f["what"] for f in r["failures"][:3]])
